@@ -37,8 +37,9 @@ struct Session {
     retrasmit_queue: VecDeque<(usize, Bytes)>,
     // Identifiers of inbound QoS 2 messages answered with PUBREC and not yet released with PUBREL.
     inbound_unreleased: Vec<u16>,
-    // Outbound QoS 2 exchanges answered with PUBREC whose PUBREL has not been submitted yet.
-    outbound_unreleased: u16,
+    // Identifiers of outbound QoS 2 exchanges answered with PUBREC whose PUBREL has not been
+    // submitted yet.
+    outbound_unreleased: Vec<u16>,
 }
 
 struct Connection {
@@ -108,7 +109,7 @@ where
         session.subscriptions.clear();
         session.retrasmit_queue.clear();
         session.inbound_unreleased.clear();
-        session.outbound_unreleased = 0;
+        session.outbound_unreleased.clear();
     }
 
     fn validate_packet_size(connection: &Connection, packet: &[u8]) -> Result<(), MqttError> {
@@ -178,7 +179,20 @@ where
                         .retrasmit_queue
                         .push_back((msg.action_id, msg.packet.freeze()));
                 } else if packet_id == PubrelTx::PACKET_ID {
-                    session.outbound_unreleased = session.outbound_unreleased.saturating_sub(1);
+                    // A PUBREL continues an exchange of this session that was answered with
+                    // PUBREC. If there is none, the session it belonged to has expired meanwhile:
+                    // the operation is abandoned like those the discarded session was awaiting
+                    // an acknowledgement for (its caller sees the response channel close).
+                    let packet_identifier = (msg.action_id >> 8) as u16;
+                    match session
+                        .outbound_unreleased
+                        .iter()
+                        .position(|id| *id == packet_identifier)
+                    {
+                        Some(pos) => session.outbound_unreleased.swap_remove(pos),
+                        None => return Ok(false),
+                    };
+
                     tx.write(msg.packet.as_ref()).await?;
                     session
                         .awaiting_ack
@@ -331,6 +345,7 @@ where
                 // A PUBREC with a failing reason code ends the exchange (no PUBREL follows),
                 // so it returns the slot taken by the PUBLISH.
                 let is_failure = pubrec.reason as u8 >= 0x80;
+                let packet_identifier = pubrec.packet_identifier.get();
                 if is_failure && connection.send_quota != connection.remote_receive_maximum {
                     #[cfg(feature = "verif")]
                     crate::verif::probe("failing_pubrec_freed_slot");
@@ -349,7 +364,7 @@ where
                     .is_some()
                     && !is_failure
                 {
-                    session.outbound_unreleased = session.outbound_unreleased.saturating_add(1);
+                    session.outbound_unreleased.push(packet_identifier);
                 }
 
                 if let Some((_, sender)) =
@@ -439,7 +454,7 @@ where
         // So does a QoS 2 exchange whose PUBREL is still to come from the caller.
         connection.send_quota = connection
             .send_quota
-            .saturating_sub(session.outbound_unreleased);
+            .saturating_sub(u16::try_from(session.outbound_unreleased.len()).unwrap_or(u16::MAX));
 
         Ok(())
     }
@@ -482,7 +497,7 @@ where
                     subscriptions: VecDeque::new(),
                     retrasmit_queue: VecDeque::new(),
                     inbound_unreleased: Vec::new(),
-                    outbound_unreleased: 0,
+                    outbound_unreleased: Vec::new(),
                 },
                 connection: Connection {
                     disconnection_timestamp: None,
